@@ -458,3 +458,75 @@ Theorem C11_kp_examples :
   (ks_run 0 (ks_init [[5]]) run_bad_drain false 1 = [(4%nat, 3)] /\ ~ drain_decl [[5]] run_bad_drain).
 Proof. exact kp_examples. Qed.
 Print Assumptions C11_kp_examples.
+
+(** ** Trace abstraction: whole runs of the model (Coalesce/QueueKSound.v)
+
+    [validate_run np 0 [l_init] progs false steps fb fl = []] says the recorded
+    run [steps] can be produced by the transition system under the recorded
+    thread choices (it is the model side of [check_case (CSched ..)]).  Along an
+    accepted run every state of the tracked set is reachable and is closed iff
+    [(TK, SRet)] has been recorded ([vinv], [validate_split]). *)
+
+(** Every run the model can produce satisfies the refusal statement (the same
+    [refusal_decl] K_P's refusal clause is sound for: [C11_kp_refusal_sound]). *)
+Theorem C11_model_run_refusal :
+  forall progs steps fb fl,
+    validate_run (List.length progs) 0 [l_init] progs false steps fb fl = [] ->
+    forall pre n e post, steps = pre ++ (TP n, e) :: post ->
+      refusal_ok (In (TK, SRet) pre) (e = SAt PtChecked) (e = SRetIns IClosed).
+Proof. exact model_check_refusal. Qed.
+Print Assumptions C11_model_run_refusal.
+
+(* Full statement, not proved (needs the simulation  lin (l_hist s) = d_lin (view progs pre),
+   l_pp s n ~ nth_dpp (d_pp (view progs pre)) n, progs = d_progs (view progs pre)  for every
+   state s of the tracked set; with it the second half follows from C11_kp_drain_lts and
+   pending_or_popped, the stamps in d_completed being suffixes of d_lin headed by LIns i):
+
+   Theorem C11_model_run_drain :
+     forall progs steps fb fl,
+       validate_run (List.length progs) 0 [l_init] progs false steps fb fl = [] ->
+       forall pre post, steps = pre ++ (TC, SRetNext NClosed) :: post ->
+         In (TK, SRet) pre /\
+         forall i hb, In (i, hb) (d_completed (view progs pre)) ->
+           delivered_after i hb (d_lin (view progs pre)).                                  *)
+(** proved part: in every run the model can produce, "closed" is reported only
+    after Close has run (first conjunct of [drain_decl]) *)
+Theorem C11_model_run_drain_partial :
+  forall progs steps fb fl,
+    validate_run (List.length progs) 0 [l_init] progs false steps fb fl = [] ->
+    forall pre post, steps = pre ++ (TC, SRetNext NClosed) :: post -> In (TK, SRet) pre.
+Proof. exact model_run_closed_after_close. Qed.
+Print Assumptions C11_model_run_drain_partial.
+
+(* Full statement, not proved (same simulation needed, plus "recorded parked = l_cp s = CWait
+   with no enabled case" at every split point, which vstep enforces by its filter):
+
+   Theorem C11_model_run_wake :
+     forall progs steps fb fl,
+       validate_run (List.length progs) 0 [l_init] progs false steps fb fl = [] ->
+       wake_decl progs steps fb.                                                            *)
+(** proved part: the end-of-run case.  A run the model can produce that ends
+    with the consumer parked ends in a reachable state with the consumer at the
+    select, no case enabled, the recorded length -- so entitled to wait
+    ([entitled_at], the predicate of [C11_kp_wake_sound]) and never after Close *)
+Theorem C11_model_run_wake_partial :
+  forall progs steps fl,
+    validate_run (List.length progs) 0 [l_init] progs false steps true fl = [] ->
+    exists s, lreach s /\ l_cp s = CWait /\ (forall b, lstep s (LSel b) = None) /\
+              q_len (l_q s) = fl /\ ~ In (TK, SRet) steps /\
+              entitled_at (q_closed (l_q s)) (l_cancelled s) (lin (l_hist s))
+                          (exists n i, l_pp s n = PInserted i true).
+Proof. exact model_run_final_parked. Qed.
+Print Assumptions C11_model_run_wake_partial.
+
+(** Non-vacuity: [run_good] is a model run; a call passing the closed check
+    after Close, "closed" without Close, and Close with the consumer left parked
+    are not. *)
+Theorem C11_model_run_examples :
+  (validate_run 1 0 [l_init] [[5; 6]] false run_good false 0 = [] /\
+   validate_run 1 0 [l_init] [[5]] false run_bad_refusal false 0 <> [] /\
+   validate_run 1 0 [l_init] [[5]] false [(TC, SAt PtEmpty); (TC, SRetNext NClosed)] false 0 <> []) /\
+  (validate_run 1 0 [l_init] [[5]] false [(TC, SAt PtEmpty); (TC, SBlocked)] true 0 = [] /\
+   validate_run 1 0 [l_init] [[5]] false run_bad_wake true 0 <> []).
+Proof. exact (conj ex_model_runs ex_model_final_parked). Qed.
+Print Assumptions C11_model_run_examples.
